@@ -57,6 +57,18 @@ def stepL (d : DSt) (ts : List String) : DSt × List String :=
     | "ur" => run unbindRemote
     | "w" => run write
     | "r" => run read
+    | "busybind" =>
+      -- two BindRemoteStream calls while the loop is held inside a slow RTCP writer, then the writer returns:
+      -- nothing may be lost, so the emissions are those of the two binds
+      match getNat fs "a", getNat fs "b" with
+      | some a, some b =>
+        let (s1, o1) := bindRemote s a
+        let s1 := note s1 o1
+        let (s2, o2) := bindRemote s1 b
+        let s2 := note s2 o2
+        let (s3, l) := flushLine "busy" s2
+        ({ d with st := some s3 }, [showOutcome o1, showOutcome o2, l])
+      | _, _ => (d, ["bad-op"])
     | "gateclose2" =>
       match getNat fs "ms" with
       | some ms =>
